@@ -101,6 +101,10 @@ def main(tier: str) -> int:
         s = "".join(pl.chars(c) for c in r["chunks"])
         run.violation(f"{v['clause']}|{r['kind']}|{ws_class(s)}", {"kind": v["clause"], "chunks": [pl.chars(c) for c in r["chunks"]], "nodes": r["nodes"], "text": pl.chars(r["text"])})
     del strict_diag
+    # the repository's own tests as traces: every append_plain_text they make (constructors included) adds exactly its text
+    from harness import markup_lib as ml
+
+    ml.run_harvest_part(run, ("append",), "append_plain_text")
     return run.finish()
 
 
